@@ -523,15 +523,23 @@ func s12() scenario {
 		if err != nil {
 			panic(err)
 		}
+		gcm12t, err := cipher.NewGCMWithTagSize(blk, 12) // truncated tag: partial final blocks take a separate path
+		if err != nil {
+			panic(err)
+		}
+		sealedT := gcm12t.Seal(nil, nonce[:12], pt[:21], []byte("t"))
 		sealed := ccm.Seal(nil, nonce, pt[:50], nil)
 		in := &inst{outs: make([]string, 3)}
 		in.threads = []func(){
 			func() {
 				o, err := ccm.Open(nil, nonce, sealed, nil)
-				in.outs[0] = hx(o, err) + hex.EncodeToString(ccm.Seal(nil, nonce, pt[:17], []byte("a")))
+				in.outs[0] = hx(o, err) + hex.EncodeToString(ccm.Seal(nil, nonce, pt[:17], []byte("a"))) + "/" +
+					hex.EncodeToString(gcm12t.Seal(nil, nonce[:12], pt[:50], []byte("u")))
 			},
 			func() {
-				in.outs[1] = hex.EncodeToString(gcm16.Seal(nil, fixedScalar(16)[:16], pt[:130], []byte("aad")))
+				o, err := gcm12t.Open(nil, nonce[:12], sealedT, []byte("t"))
+				in.outs[1] = hex.EncodeToString(gcm16.Seal(nil, fixedScalar(16)[:16], pt[:130], []byte("aad"))) + "/" + hx(o, err) +
+					"/" + hex.EncodeToString(gcm12t.Seal(nil, nonce[:12], pt[:37], nil))
 			},
 			func() {
 				d1 := make([]byte, 160)
